@@ -165,7 +165,7 @@ class C06(Property):
             rng.shuffle(locs)
         elif special > 0.85:
             # dense protoclusters with long, mutually overlapping cores: several interleaved candidates whose
-            # union is formed again as a neighbouring group (D26: the redundant candidate is dropped)
+            # union is formed again as a neighbouring group (D40: the redundant candidate is dropped)
             k = rng.choice([3, 4, 4, 5])
             for _ in range(k):
                 lo = rng.randrange(0, max(1, n // 2))
@@ -225,7 +225,7 @@ class C06(Property):
         return {"len": n, "circ": circ, "cds": self.rand_cds(rng, n), "ops": ops}
 
     def manual_regions_case(self, rng: random.Random) -> Dict[str, Any]:
-        """subregions, then add_region one by one in random order (overlap rejection, ordered insert; D25)"""
+        """subregions, then add_region one by one in random order (overlap rejection, ordered insert; D39)"""
         n, grid = self.rand_len(rng)
         circ = rng.random() < 0.7
         k = rng.choice([2, 3, 3, 4, 5])
